@@ -15,7 +15,7 @@ MCLines == { L("k", K_a, 0, 0, 0), L("k", K_a, 2, 0, 0), L("k", K_a, 0, 2, 0), L
              L("k", K_ab, 0, 0, 0), L("k", K_e, 0, 0, 0),
              L("id", K_a, 0, 0, 0), L("id", K_a, 0, 0, 1), L("id", K_a, 1, 0, 2), L("id", K_b, 0, 0, 1),
              L("kv", K_a, 0, 0, 0), L("kv", K_a, 0, 0, 1), L("kv", K_b, 0, 0, 0),
-             L("blank", <<>>, 0, 0, 0), L("ws", <<>>, 2, 0, 0) }
+             L("blank", <<>>, 0, 0, 0), L("ws", <<>>, 2, 0, 0), L("uws", <<>>, 2, 0, 0) }
 
 CONSTANT Star   \* TRUE: the small alphabet for the regex whose group may be empty
 StarLines == { L("ide", <<>>, 0, 0, 0), L("ide", <<>>, 2, 0, 1), L("ide", K_a, 0, 0, 0), L("ide", K_a, 0, 0, 2),
@@ -23,5 +23,5 @@ StarLines == { L("ide", <<>>, 0, 0, 0), L("ide", <<>>, 2, 0, 1), L("ide", K_a, 0
 AllLines == MCLines
 MCLinesSel == IF Star THEN StarLines ELSE AllLines
 MCConfigs == { [kind |-> "unique", dir |-> "asc", sp |-> "", pat |-> p, fmt |-> "lex",
-                lp |-> "any", op |-> "==", n |-> 0] : p \in (IF Star THEN {"gstar"} ELSE {"none", "group", "plain"}) }
+                lp |-> "any", op |-> "==", n |-> 0] : p \in (IF Star THEN {"gstar"} ELSE {"none", "group", "plain", "galt", "ganch"}) }
 =============================================================================
